@@ -118,6 +118,8 @@ class BaseCurve(Intface_BaseCurve):
                 np.moveaxis(self.ctrlpoints, 0, -1), matrix3d, axes=1
             )
             ctrlpoints = ctrlpoints @ other.ctrlpoints
+            if np.ndim(self.ctrlpoints) > 1:  # coordinates of self came first
+                ctrlpoints = np.moveaxis(ctrlpoints, 0, -1)
             curve = Curve(vectmul, ctrlpoints)
             return curve
         numa, dena = self.fraction()
